@@ -6,12 +6,13 @@
      yields, after each event, exactly { rkey r |-> attrs r | r in get_resources (state) }.
    Proved below: the ordering half in full; the KEY half in full ([C03_applied_set_is_active_set]: for every
    history the set of resources that have a configuration applied is exactly the set of active resources --
-   nothing active is missing, nothing removed lingers); and the facts the attribute half rests on.  The
-   attribute half (the configuration of each key is rendered from the current attributes) needs the
-   API-server assumption K3 on whole histories and is decided on every run by evaluating
-   Arb.Cases.shadow_run on the implementation's own batches. *)
+   nothing active is missing, nothing removed lingers); and the FULL STATEMENT itself
+   ([C03_applied_configuration_is_current]) for every history that obeys the API-server rule K3 (a spec change
+   moves the generation; a UID is not reused), with the cert-manager challenge conversion switched off.  The
+   remaining corner (cert_manager = true) is decided on every run by evaluating Arb.Cases.shadow_run on the
+   implementation's own batches. *)
 From Coq Require Import List ZArith String Bool.
-From NIC Require Import Base.SMap Arb.Types Arb.Model Arb.Spec Arb.InvProofs Arb.ListenerProofs Arb.ClassProofs Arb.Cases Arb.ChangeProofs Arb.ShadowProofs.
+From NIC Require Import Base.SMap Arb.Types Arb.Model Arb.Spec Arb.InvProofs Arb.ListenerProofs Arb.ClassProofs Arb.Cases Arb.ChangeProofs Arb.ShadowProofs Arb.ShadowAttrs.
 Import ListNotations.
 Open Scope Z_scope.
 
@@ -86,3 +87,32 @@ Example C03_applied_set_nonvacuous :
   Forall ev_role es /\
   keys (shadow_run (mkCfg true true) init [] es) = ["TransportServer/ns/t"%string; "VirtualServer/ns/v"%string].
 Proof. split; [repeat constructor|vm_compute; reflexivity]. Qed.
+
+(* THE FULL STATEMENT.  Replaying every batch the controller emitted along [es] into an empty shadow gives,
+   under every key, exactly the attributes (everything the NGINX configuration is rendered from: object,
+   master/minions, routes, valid hosts, listener ports and addresses) of the resource GetResources() returns
+   for the state reached -- and nothing under any other key.  [es] is arbitrary, so the same holds after every
+   prefix.  Hypotheses: [ev_role] as above; [k3_hist]: among the objects the history ever stores, equal
+   namespace/name, UID and generation (and, for an Ingress, annotations) mean equal objects -- what the API
+   server guarantees and what IsEqual() relies on by design; [cert_manager c = false]: the conversion of ACME
+   challenge Ingresses into routes is not part of this proof (it is part of the run-time evaluation). *)
+Theorem C03_applied_configuration_is_current :
+  forall c es, cert_manager c = false -> Forall ev_role es -> k3_hist es ->
+  forall k, lookup k (shadow_run c init [] es) = option_map attrs (lookup k (get_resources (run c es))).
+Proof. exact applied_configuration_is_current. Qed.
+Print Assumptions C03_applied_configuration_is_current.
+
+(* Non-vacuity: the history above (a TransportServer edited from passthrough to TCP, so two stored versions of
+   one object with different generations) satisfies all three hypotheses with cert_manager off, and its shadow
+   is not empty. *)
+Example C03_applied_configuration_nonvacuous :
+  let es := [EGC gc1 false; ETS (tP 1) true true; EIng sI true true; EVS sV true true; ETS (tC 2) true true] in
+  Forall ev_role es /\ k3_hist es /\
+  List.length (shadow_run (mkCfg true false) init [] es) = 2%nat.
+Proof.
+  split; [repeat constructor|]. split; [|vm_compute; reflexivity].
+  repeat split; intros a b Ha Hb Hm; cbn [In] in Ha, Hb;
+    destruct Ha as [Ha|[Ha|[Ha|[Ha|[Ha|[]]]]]]; try discriminate Ha; injection Ha as Ea; subst a;
+    destruct Hb as [Hb|[Hb|[Hb|[Hb|[Hb|[]]]]]]; try discriminate Hb; injection Hb as Eb; subst b;
+    first [reflexivity | vm_compute in Hm; discriminate Hm].
+Qed.
